@@ -259,4 +259,68 @@ def taskOK (g : Graph) (n : NodeId) (nd : Node) : Bool :=
 def Graph.OK (enc : Str → Str) (g : Graph) : Prop :=
   ∀ n nd, g.node n = some nd → nodeOK enc nd = true ∧ taskOK g n nd = true
 
+/-- the same checks as a Boolean over the whole graph (for concrete graphs: `decide`). -/
+def Graph.okB (enc : Str → Str) (g : Graph) : Bool :=
+  (List.range g.nodes.length).all (fun n =>
+    match g.node n with
+    | some nd => nodeOK enc nd && taskOK g n nd
+    | none => true)
+
+mutual
+/-- every dict below the value has pairwise different keys (true of any Python dict). -/
+def valDictOK : Val → Bool
+  | .none => true
+  | .scalar => true
+  | .ref _ => true
+  | .list vs => valsDictOK vs
+  | .dict ks vs => decide ks.Nodup && valsDictOK vs
+def valsDictOK : List Val → Bool
+  | [] => true
+  | v :: vs => valDictOK v && valsDictOK vs
+end
+
+/-- `nodeOK` without any condition on the *content* of dict keys. -/
+def nodeOKany (nd : Node) : Bool :=
+  decide (nd.args.map Prod.fst).Nodup
+    && (nd.args.map Prod.fst).all (fun k => decide (Plain k) && decide (k ≠ preKey) && decide (k ≠ initKey))
+    && nd.args.all (fun a => valDictOK a.2)
+    && nd.gens.all (fun a => decide (Plain a.2))
+    && decide (nd.gens.map Prod.fst).Nodup
+
+def Graph.OKany (g : Graph) : Prop :=
+  ∀ n nd, g.node n = some nd → nodeOKany nd = true ∧ taskOK g n nd = true
+
+def Graph.okAnyB (g : Graph) : Bool :=
+  (List.range g.nodes.length).all (fun n =>
+    match g.node n with
+    | some nd => nodeOKany nd && taskOK g n nd
+    | none => true)
+
+/-! ### renaming of objects (for `genpath_deterministic`) -/
+
+mutual
+def Val.rename (σ : NodeId → NodeId) : Val → Val
+  | .none => .none
+  | .scalar => .scalar
+  | .ref n => .ref (σ n)
+  | .list vs => .list (renameVals σ vs)
+  | .dict ks vs => .dict ks (renameVals σ vs)
+def renameVals (σ : NodeId → NodeId) : List Val → List Val
+  | [] => []
+  | v :: vs => v.rename σ :: renameVals σ vs
+end
+
+def Node.rename (σ : NodeId → NodeId) (nd : Node) : Node :=
+  { nd with args := nd.args.map (fun a => (a.1, a.2.rename σ)), preTasks := nd.preTasks.map σ,
+            initTasks := nd.initTasks.map σ, task := nd.task.map σ }
+
+def Entry.rename (σ : NodeId → NodeId) (e : Entry) : Entry := { e with node := σ e.node }
+
+/-- `g'` is the same configuration as `g` built again: the objects are different (`σ` maps an
+    object of `g` to the corresponding object of `g'`), everything else is equal. -/
+structure Graph.Same (σ : NodeId → NodeId) (g g' : Graph) : Prop where
+  inj : ∀ a b, σ a = σ b → a = b
+  len : g'.nodes.length = g.nodes.length
+  node : ∀ n, g'.node (σ n) = (g.node n).map (Node.rename σ)
+
 end XpmVerif.GenPath
